@@ -182,7 +182,7 @@ async def send_udp(
         loop = asyncio.get_event_loop()
 
     while retries > 0:
-        _, protocol = await loop.create_datagram_endpoint(
+        transport, protocol = await loop.create_datagram_endpoint(
             lambda: SNMPClientProtocol(packet),
             remote_addr=(str(endpoint.ip), endpoint.port),
         )
@@ -194,6 +194,10 @@ async def send_udp(
                 raise
             retries -= 1
             LOG.debug("Resending UDP packet. %d retries left", retries)
+        finally:
+            # Errors reported by the OS (f.ex. "connection refused") leave
+            # the socket open. Never leak it, however the attempt ended.
+            transport.close()
 
     return response
 
